@@ -36,7 +36,9 @@ facet ``rd`` (read_csv == pandas.read_csv): the harness writes the bytes itself 
 
 Labels ``<facet>:<necessary features>:<symptom>``: after a disagreement every feature of the case
 description that is switched on is switched off in turn and the case is re-run; the features that are
-NECESSARY for the disagreement name the mechanism (no sizes, seeds or paths).
+NECESSARY for the disagreement name the mechanism (no sizes, seeds or paths).  Features that only move bytes
+around (quoting, tricky values, CRLF ...) are kept only when nothing else is necessary.  Three mechanisms that were
+triaged by hand are recognised by an input/symptom predicate and get one label each (see ``_label``).
 
 Calibration
 -----------
@@ -50,8 +52,17 @@ Calibration
   against a scratch copy with the proposed coerce_dtypes fix (on the unchanged tree dask raises there, see PENDING).
 * explicit ``dtype=`` must also cover the written index column, otherwise inference on a header-only
   first file gives ``object`` (design note in DESIGN §9: inference on samples legitimately differs).
-* ``mode='a'`` is only used on fresh paths: appending to an existing CSV writes a second header
-  (pandas semantics of ``to_csv(mode='a')``), which is not a round trip.
+* ``mode='a'`` is only used on fresh paths (appending to an existing CSV writes a second header: pandas semantics of
+  ``to_csv(mode='a')``, not a round trip) and only for ``single_file=True`` / explicit path lists: with a glob or a
+  directory fsspec does not expand ``*`` for append mode and to_csv raises IndexError — ``mode`` is not in the
+  statement's quantifier, reported as a side observation in findings_proposed/C47.md.
+* datetimes are written with an explicit ``date_format`` on both sides: pandas 3 writes an all-midnight partition as
+  dates only, the assembled file then has mixed formats and pandas' own parse_dates leaves strings (false alarm
+  ``rt:index-written&layout-single&several-partitions`` corrected; witness: 13 rows / 13 partitions, datetime index).
+* ``lineterminator='\n'`` is only passed for LF files (with CRLF pandas itself keeps the ``\r`` in the last column
+  name, so the dtype map no longer applies: generator error, corrected).
+* ``infer`` share: no header-only files, no tricky (numeric-looking) strings: per-file/per-block inference
+  legitimately differs there (two false alarms corrected).
 * zero-byte files: pandas raises EmptyDataError -> rejected by the reference, not generated except
   as a rare reject-path probe.
 """
@@ -104,7 +115,17 @@ FLOORS = {
                  "max_skipped_fraction": 0.15},
 }
 
-PENDING = {}
+PENDING = {
+    "read_csv:parse_dates&block-without-data-rows:ValueError@dataframe/io/csv.py:coerce_dtypes":
+        "a block / header-only file / empty written partition that is not the first one makes read_csv(parse_dates=) raise "
+        "'failed to properly parse as dates' (fix proposed in findings_proposed/C47.md)",
+    "read_csv:data-row-starts-with-header-text&blocked:length":
+        "a data row equal to the header line is dropped when a block starts with it (pandas_read_text startswith guard; fix proposed)",
+    "read_csv:data-row-starts-with-header-text&blocked:columns":
+        "same guard: a first row of a block that merely starts with the header text becomes the header of that block",
+    "read_csv:all-files-zero-bytes&blocksize-set:ValueError@backends.py:wrapper":
+        "zero-byte files (empty frame written with header=False) + any blocksize -> from_map gets no blocks and raises",
+}
 
 _TMP = None
 
